@@ -57,6 +57,39 @@ def np_hook(interp, d, args, kwargs, node):
         # symbolic length: one run whose generic element i (0-based) is a + (b - a) x i / (n - 1)
         from .symx import EIDX
         return NArr([(a + (b - a) * Rat.atom(EIDX) / (n - Rat.const(1)), n)])
+    if d == "np.repeat" and len(args) == 2 and isinstance(args[0], (PList, NArr, tuple)) and not (set(kwargs) - {"axis"}):
+        # np.repeat(values, counts): element i of a one-dimensional array repeated counts[i] (or the scalar count) times
+        src = _segs(PList(list(args[0])) if isinstance(args[0], tuple) else args[0])
+        if src is not None and all(isinstance(n, Rat) and n.is_const() for _, n in src) and sum(n.as_int() for _, n in src) <= 400:
+            elems = [f for f, n in src for _ in range(n.as_int())]
+            cnt = args[1]
+            if isinstance(cnt, (Rat, Path)):
+                counts = [interp.to_rat(cnt)] * len(elems)
+            elif isinstance(cnt, (PList, NArr, tuple)):
+                cs = _segs(PList(list(cnt)) if isinstance(cnt, tuple) else cnt)
+                counts = None
+                if cs is not None and all(isinstance(n, Rat) and n.is_const() for _, n in cs):
+                    counts = [interp.to_rat(f) for f, n in cs for _ in range(n.as_int())]
+            else:
+                counts = None
+            if counts is not None and len(counts) == len(elems):
+                return NArr([(f, n) for f, n in zip(elems, counts)])
+    if d == "np.pad" and len(args) == 2 and isinstance(args[0], (PList, NArr)) and set(kwargs) == {"mode"} and kwargs["mode"] == "edge":
+        # np.pad(a, (before, after), mode="edge"): the first / last element repeated
+        src = _segs(args[0])
+        w = args[1]
+        if isinstance(w, PList):
+            w = tuple(w.items)
+        if isinstance(w, (Rat, Path)):
+            w = (w, w)
+        if src and isinstance(w, tuple) and len(w) == 2 and all(isinstance(x, (Rat, Path)) for x in w):
+            b, a = interp.to_rat(w[0]), interp.to_rat(w[1])
+            out = list(src)
+            if not (b.is_const() and b.as_int() == 0):
+                out = [(src[0][0], b)] + out
+            if not (a.is_const() and a.as_int() == 0):
+                out = out + [(src[-1][0], a)]
+            return NArr(out)
     if d == "np.append" and len(args) == 2:
         sa, sb = _segs(args[0]), _segs(args[1])
         if sa is not None and sb is not None:
